@@ -108,7 +108,7 @@ int main(int argc, char **argv)
         Case c{0, (size_t)cu(m, "len"), (int)cu(m, "kind"), (int)cu(m, "align")};
         std::string v = cs(m, "variant");
         for (int i = 0; i < NV; i++) if (v == vname[i]) c.variant = i;
-        ChildResult r = run_child([&](FILE *f) { dup2(fileno(f), 1); rep().reset(); run_case(R, c); rep().flush(); fflush(stdout); });
+        ChildResult r = run_child([&](FILE *f) { dup2(fileno(f), 1); rep().reset(); run_case(R, c); rep().flush(); fflush(stdout); }, 1500);
         if (r.kind == 0) fwrite(r.out.data(), 1, r.out.size(), stdout);
         else rep().viol(fmt("C07.%s.%s.w%u", crash_sig(r).c_str(), vname[c.variant], W), casestr(c), err_tail(r));
         rep().flush();
@@ -125,11 +125,23 @@ int main(int argc, char **argv)
         for (size_t L = 0; L <= Lmax; L++)
             for (int kind = 0; kind < 3 + (int)L; kind++)
                 for (int al = 0; al < 2; al++) cases.push_back({v, L, kind, al});
+        // huge inputs (thorough): lengths beyond 2^24 elements, where a 32-bit float / int conversion of the length would round
+        if (W == 32 && args.thorough())
+            for (size_t L : {((size_t)1 << 24) + 1, ((size_t)1 << 24) + 9})
+                cases.push_back({v, L, 1, 0});
+        // long inputs: block-loop bookkeeping far from the small cases (three bulk contents + a marker in the last block)
+        if (W == 32)
+            for (size_t L : {(size_t)255, (size_t)256, (size_t)257, (size_t)511, (size_t)1000, (size_t)1023, (size_t)1024, (size_t)1025, (size_t)4099, (size_t)65537})
+            {
+                if (L > 5000 && !args.thorough() && v != V_AVX) continue;
+                for (int kind : {0, 1, 2, 3 + (int)L - 1, 3 + (int)L - 9, 3 + 8})
+                    for (int al = 0; al < 2; al++) cases.push_back({v, L, kind, al});
+            }
     }
     std::set<std::pair<int, size_t>> groups;
     for (auto &c : cases) groups.insert({c.variant, c.len});
-    isolated_for((long)cases.size(), args.jobs, 64, [&](long i) { run_case(R, cases[i]); },
-                 [&](long i, const ChildResult &r) { rep().viol(fmt("C07.%s.%s.w%u", crash_sig(r).c_str(), vname[cases[i].variant], W), casestr(cases[i]), err_tail(r)); });
+    isolated_for((long)cases.size(), args.jobs, 16, [&](long i) { run_case(R, cases[i]); },
+                 [&](long i, const ChildResult &r) { rep().viol(fmt("C07.%s.%s.w%u", crash_sig(r).c_str(), vname[cases[i].variant], W), casestr(cases[i]), err_tail(r)); }, 900);
     rep().stat("states", (long long)cases.size());
     rep().stat(fmt("states_w%u", W), (long long)cases.size());
     long long nt = 0;
